@@ -200,7 +200,7 @@ def _correspond(ck, rng):
     hist_reqs, hist_real, hist_meta = [], [], []
     skipped = raised = 0
     for _ in range(ck.pick(60, 500)):
-        steps = P.gen_program(rng, PROGRAM_SIZE, control_flow=False)
+        steps = P.gen_program(rng, PROGRAM_SIZE, control_flow=False, random_ops=True)
         sel = rng.choice(["reference", "onnxruntime"])
         script = None
         fault = None
